@@ -81,6 +81,7 @@ type VC struct {
 	objModCache []objMod
 	localRefs map[string][]localRef
 	rebinding bool
+	privateRefs map[string][]string // heap key -> refs of locals that never escape
 	ownNames  map[string]bool
 	inlStack  []*inlFrame
 	inlSeq    int
@@ -145,7 +146,7 @@ func NewVC(p *Program, c *Contracts, fn *ssa.Function, fc *FuncContract) *VC {
 		keyMetas: map[string]keyMeta{}, strLits: map[string]int{"": 0}, strList: []string{""},
 		typeIDs: map[string]int{}, counts: map[string]int{}, Abstract: map[string]int{},
 		loops: map[*ssa.BasicBlock]*loopInfo{}, backEdge: map[[2]int]bool{}, callOrd: map[string]int{},
-		params: map[string]sval{}, siteUsed: map[*Clause]int{}, tuples: map[ssa.Value][]string{}, funcIDs: map[string]int{}, usedContracts: map[string]bool{}, ensuresSeen: map[*Clause]int{}, localRefs: map[string][]localRef{}, inlMemo: map[*ssa.Function]bool{}, deferInfo: map[*ssa.Defer]*callInfo{}}
+		params: map[string]sval{}, siteUsed: map[*Clause]int{}, tuples: map[ssa.Value][]string{}, funcIDs: map[string]int{}, usedContracts: map[string]bool{}, ensuresSeen: map[*Clause]int{}, localRefs: map[string][]localRef{}, inlMemo: map[*ssa.Function]bool{}, privateRefs: map[string][]string{}, deferInfo: map[*ssa.Defer]*callInfo{}}
 	return vc
 }
 
